@@ -36,10 +36,29 @@ NOTBLANK_PID = 1
 
 
 class Yield:
-    """an awaitable that suspends the coroutine exactly once (hand-driven scheduling)"""
+    """an awaitable that suspends the coroutine exactly once: a bare `yield`, which both a hand-driven scheduler
+    (`coro.send(None)`) and an asyncio task (this is what `asyncio.sleep(0)` does) accept"""
 
     def __await__(self):  # type: ignore
-        yield self
+        yield
+
+
+EXTRA_YIELDS = [True]     # the C13 stream, which predicts the number of await points with the model, switches it off
+
+
+def extra_yields(val: Any) -> int:
+    """suspensions that depend on the value in hand (0..2): siblings validated side by side do not all take the
+    same number of steps, so a result assembled in completion order differs from one assembled in declaration order"""
+    if not EXTRA_YIELDS[0]:
+        return 0
+    try:
+        if type(val) is int:
+            return abs(val) % 3
+        if type(val) in (str, bytes, list, tuple, dict, set):
+            return len(val) % 3
+    except Exception:  # noqa
+        pass
+    return 0
 
 
 # ---------------------------------------------------------------------------------------------
@@ -124,6 +143,12 @@ def opt_fn(ctx: Ctx, d: dict) -> Callable[[Any], Maybe[Any]]:
         return g2
     if f == "tupleFromAny":
         return lambda x: Just(x) if type(x) is tuple else (Just(tuple(x)) if type(x) in (list, set) else nothing)
+    if f == "tupleTail":
+        return lambda x: (Just(x) if type(x) is tuple else Just(tuple(x[1:])) if type(x) is list
+                          else Just((x,)) if type(x) is int else nothing)
+    if f == "listTail":
+        return lambda x: (Just(x) if type(x) is list else Just(list(x[1:])) if type(x) is tuple
+                          else Just([x]) if type(x) is int else nothing)
     if f == "dictFromPairs":
         def g3(x: Any) -> Maybe[Any]:
             if type(x) is dict:
@@ -211,7 +236,7 @@ class UserPredAsync(PredicateAsync[Any]):
 
     async def validate_async(self, val: Any) -> bool:
         self.ctx.log.append(["apred", self.pid])
-        for _ in range(self.yields):
+        for _ in range(self.yields + (extra_yields(val) if self.yields else 0)):
             await Yield()
         return self.fn(val)
 
@@ -240,6 +265,8 @@ class UserValidator(Validator[Any]):
 
     async def validate_async(self, val: Any) -> Any:
         self.ctx.log.append(["uv", self.vid, "async"])
+        for _ in range(extra_yields(val)):
+            await Yield()
         return await self.inner.validate_async(val)
 
     def __eq__(self, other: Any) -> bool:
@@ -510,7 +537,7 @@ def mk_validator(ctx: Ctx, d: dict, env: List[Any]) -> Any:
             ctx.memo[tkey] = lambda: env[ref]
         v = Lazy(ctx.memo[tkey], recurrent=d.get("recurrent", True))
     elif k == "knr":
-        v = KeyNotRequired(mk_validator(ctx, d["inner"], env))
+        v = _knr_class(vid)(mk_validator(ctx, d["inner"], env))
     elif k == "user":
         v = UserValidator(ctx, vid, mk_validator(ctx, d["inner"], env))
     else:
@@ -518,6 +545,15 @@ def mk_validator(ctx: Ctx, d: dict, env: List[Any]) -> Any:
     ctx.vid[id(v)] = vid
     ctx.keep.append(v)
     return v
+
+
+class KeyNotRequiredSub(KeyNotRequired):  # type: ignore
+    """a user's subclass of the marker: still marks the key as optional"""
+
+
+def _knr_class(vid: int) -> Any:
+    # decided by the description alone, so that rebuilding a description yields the same classes
+    return KeyNotRequiredSub if vid % 4 == 0 else KeyNotRequired
 
 
 def mk_record(ctx: Ctx, d: dict, env: List[Any]) -> Any:
@@ -537,7 +573,7 @@ def mk_record(ctx: Ctx, d: dict, env: List[Any]) -> Any:
             if req:
                 schema[k] = v
             else:
-                m = KeyNotRequired(v)
+                m = _knr_class(knr_vid)(v)
                 ctx.vid[id(m)] = knr_vid
                 ctx.keep.append(m)
                 schema[k] = m
@@ -590,13 +626,16 @@ def build(ctx: Ctx, vdesc: dict, envdesc: List[dict]) -> Any:
 # running the real code
 
 
+_LOOP: List[Any] = []
+
+
 def drive(coro: Any) -> Any:
-    """run a coroutine whose only awaitables are our `Yield`s to completion, without an event loop"""
-    try:
-        while True:
-            coro.send(None)
-    except StopIteration as e:
-        return e.value
+    """run a coroutine to completion on this process's asyncio event loop (our own awaitables are bare yields, which
+    a task accepts; code under test that uses asyncio primitives - gather, locks, futures - finds a running loop)"""
+    import asyncio
+    if not _LOOP or _LOOP[0].is_closed():
+        _LOOP[:] = [asyncio.new_event_loop()]
+    return _LOOP[0].run_until_complete(coro)
 
 
 def run_real(ctx: Ctx, v: Any, x: Any, mode: str) -> dict:
